@@ -212,6 +212,33 @@ def sender_vectors(args):
                 break
             got.append(list(e.mac))
         out.append(dict(k="order", read_macs=got[:1], arrived_macs=[out[0]["sent"]["mac"]] if out[0]["queued"] else []))
+    # several packets already wait in the radio when the application polls (its FIFO holds three): a packet that fails the CRC
+    # in front of / between / behind valid ones is ignored, the valid ones are still queued, in order
+    good = [v for v in out if v.get("k") == "rx" and v.get("has_sent") and v.get("queued")]
+    pair = next(((a, b) for i, a in enumerate(good) for b in good[i + 1:] if a["rfch"] == b["rfch"] and a["payload"] != b["payload"]), None)
+    if pair:
+        a, b = pair
+        junk = list(a["payload"])
+        junk[7] ^= 0x10
+        for order in ((junk, a["payload"], b["payload"]), (a["payload"], junk, b["payload"]), (a["payload"], b["payload"], junk)):
+            rx5 = Rx()
+            rx5.tune(a["rfch"])
+            c5 = rx5.b.chip
+            for pl in order:
+                rx5.b.air.phantom_tx(c5.pipe_addr(0), a["rfch"], c5.aw(), c5.rate(), c5.crc_len(), bytes(pl))
+            exc = False
+            for _ in range(4):
+                try:
+                    rx5.ble.available()
+                except Exception:  # noqa
+                    exc = True
+            got = []
+            while not exc:
+                e = rx5.ble.read()
+                if e is None:
+                    break
+                got.append(list(e.mac))
+            out.append(dict(k="order", read_macs=got, arrived_macs=[a["sent"]["mac"], b["sent"]["mac"]]))
     # two receiving objects in one process, fed and polled in turn: each hands out exactly what ITS radio received
     if len(out) >= 4:
         rxa, rxb = Rx(), Rx()
